@@ -250,7 +250,7 @@ class Zoo:
             # (one binding in five carries an end-of-line comment of its own behind the semicolon, or the semicolon
             # stands on the next line)
             r = rng.random()
-            tail = ";" if r < 0.8 else (rng.choice(["; # t", "\n  ; # t", " # s\n  ; # t", "\n  ;"]))
+            tail = ";" if r < 0.75 else (rng.choice(["; # t", "\n  ; # t", " # s\n  ; # t", "\n  ;", "\n    # w\n    ;", "\n  # w\n  ; # t", "\n    # w\n\n    # v\n    ;"]))
             self.extra["binding_tail"] = tail.replace("\n", "|")
             text = "{\n  pre = 1;\n  k =" + sep + val + tail + "\n  post = 2;\n}\n"
         elif place == "let_binding":
